@@ -267,7 +267,7 @@ fn parse_at_rule(
     if let Token::AtKeyword(x) = &*peek {
         input.next().ok();
         let at_keyword: &str = &x;
-        if at_keyword == "import" && ss.options.import_sign.is_some() {
+        if at_keyword.eq_ignore_ascii_case("import") && ss.options.import_sign.is_some() {
             // process at-import if needed
             let import_sign = ss.options.import_sign.clone().unwrap();
             let start_pos = input.position();
@@ -382,9 +382,10 @@ fn parse_at_rule(
             let st = StepToken::wrap(Token::AtKeyword(x.clone()), peek.position);
             let output_index = ss.cur_output_utf8_len();
             ss.append_token(st, input, None);
-            let x: &str = &x;
+            // at-rule names are ASCII case-insensitive
+            let x = x.to_ascii_lowercase();
             let contain_rule_list = matches!(
-                x,
+                x.as_str(),
                 "media" | "supports" | "document" | "layer" | "container" | "scope" | "starting-style"
             );
             loop {
